@@ -21,6 +21,7 @@ ASSUMPTIONS = ["C++ ECMAScript regexes used by the reader are simple enough to b
 def declare(rep):
     rep.rule("C16.section-lines", "each section line emitted by the writer is matched by the reader's regex for that section", floor=4)
     rep.rule("C16.number-format", "the writer's coordinate format only produces tokens the reader's number regex matches entirely", floor=1)
+    rep.rule("C16.mesh-record-length", "mesh overload of write_cell_data: the declared integer count of a cell record is 1 + (number of faces) + sum over ALL faces of their node counts (faces may be arbitrary polygons)", floor=1)
     rep.rule("C16.declared-counts", "declared counts (points, per-cell integers, cells, cell types, field length) agree with what the loops emit", floor=5)
     rep.rule("C16.reader-conventions", "the reader requires cell type 42 and takes the first integer of a record as its length", floor=2)
     rep.rule("C16.compact-before-count", "the cells are compacted (rebase) before any count, offset or coordinate is taken from them", floor=1)
@@ -147,6 +148,7 @@ def run(rep, prog, tier):
         rep.violation("C16.section-lines", prog, warr, None, "cell_type_id array missing", "writer field header / cell_type_id mapper / reader regex not found (%d/%d/%d)" % (len(th), len(ct), len(pat)))
     number_format(rep, prog, rx_pos, r_pos)
     declared_counts(rep, prog, wfile, wcell, warr)
+    mesh_record_length(rep, prog)
     reader_conventions(rep, prog, r_faces)
     compact_before_count(rep, prog, wfile)
     no_narrowing(rep, prog)
@@ -510,3 +512,63 @@ def array_extent(rep, prog, sections, warr):
         else:
             rep.violation("C16.array-extent", prog, fn, hnode, "%s array not delimited by the next keyword" % key,
                           "%s extracts the %s array without searching for the next keyword (a letter) after the header: the writer wraps arrays over several lines (a newline every few values), so any line-based end truncates the array" % (fn["qn"], key))
+
+
+def mesh_record_length(rep, prog):
+    rule = "C16.mesh-record-length"
+    fns = [f for f in prog.fns("mesh_writer::write_cell_data") if "std::vector<mesh" in f["key"] or "vector<mesh>" in f["key"]]
+    if len(fns) != 1:
+        raise AnalysisBroken("mesh_writer::write_cell_data(ofstream&, vector<mesh>, ...) not found")
+    fn = fns[0]
+    pushes = [x for x in walk(fn["body"]) if x.get("k") == "CXXMemberCallExpr" and x.get("callee", "").split("::")[-1] in ("push_back", "emplace_back") and "size" in render(call_obj(x))]
+    if not pushes:
+        raise AnalysisBroken("write_cell_data(mesh): per-cell record length is not pushed into a vector")
+    p = pushes[0]
+    a = strip(call_args(p)[0])
+    # every expression that flows into the pushed value: initialiser and compound assignments of the variable (or the expression itself)
+    exprs = [a]
+    if a.get("k") == "DeclRefExpr":
+        did = a["ref"]["did"]
+        exprs = []
+        for n in walk(fn["body"]):
+            if n.get("k") == "Var" and n.get("did") == did and isinstance(n.get("init"), dict):
+                exprs.append(n["init"])
+            if n.get("k") in ("CompoundAssignOperator", "BinaryOperator") and n.get("op") in ("+=", "=") and strip(n["c"][0]).get("k") == "DeclRefExpr" and strip(n["c"][0])["ref"].get("did") == did:
+                exprs.append(n["c"][1])
+    from ..model import expand
+    texts = [render(expand(fn, e)).replace(" ", "") for e in exprs]
+    alltxt = " ".join(texts)
+    sums_all_faces = False
+    for e in exprs:
+        for x in walk(expand(fn, e)):
+            if x.get("k") == "CallExpr" and x.get("callee", "").startswith("std::accumulate") and "face_point_ids" in render(x):
+                lam = [l for l in walk(x) if l.get("k") == "LambdaExpr"]
+                if lam and any(r.get("k") == "ReturnStmt" and _adds_size(r.get("value") or {}) for r in walk(lam[0]["body"])):
+                    sums_all_faces = True
+    loops_sum = any(l.get("k") in ("CXXForRangeStmt", "ForStmt") and "face_point_ids" in render(l.get("range") or l.get("cond") or {}) and any(
+        c.get("k") == "CompoundAssignOperator" and c.get("op") == "+=" and ".size()" in render(c["c"][1]) for c in walk(l["body"])) for l in walk(fn["body"]) if fi_before(prog, fn, l, p))
+    why = []
+    if not (sums_all_faces or loops_sum):
+        why.append("no sum of the node counts over all faces of the mesh (found: %s)" % [t[:70] for t in texts])
+    if ".front()" in alltxt or "[0].size()" in alltxt:
+        why.append("uses the node count of the first face for all faces")
+    if "face_point_ids.size()" not in alltxt:
+        why.append("the number of faces is not part of the count")
+    if not why:
+        rep.ok(rule, prog, fn, p, "record length = 1 + F + sum over the faces of their node counts")
+    else:
+        rep.violation(rule, prog, fn, p, "declared record length assumes something about the faces",
+                      "write_cell_data(vector<mesh>): %s: for a cell whose faces do not all have the same number of nodes (hexagonal prism, pyramid; the reader accepts arbitrary polygons) the declared length of the record and the CELLS total "
+                      "differ from the integers written, and mesh_reader rejects or mis-parses the file" % "; ".join(why))
+
+
+def fi_before(prog, fn, a, b):
+    fi = prog.index(fn)
+    return fi.order[id(a)] < fi.order[id(b)]
+
+
+def _adds_size(e):
+    e = strip(e)
+    plus = any(x.get("k") == "BinaryOperator" and x.get("op") == "+" for x in walk(e))
+    size = any((x.get("k") == "CXXDependentScopeMemberExpr" and x.get("member") == "size") or (x.get("k") == "CXXMemberCallExpr" and x.get("callee", "").endswith("::size")) for x in walk(e))
+    return plus and size
